@@ -70,6 +70,36 @@ def _key(k):
     return k[1] if isinstance(k, tuple) else k
 
 
+def member_limits(cfg, dim):
+    G0, E0 = lab.default_limits(cfg['nested'], dim, cfg.get('npop', 4))
+    lim = cfg.get('limits') or [None, None]
+    return (G0 if lim[0] is None else lim[0]), (E0 if lim[1] is None else lim[1])
+
+
+def past_stop(tr, G, EV):
+    """C05 sense, from the harness's own counts: member iterations that began although a stop condition held"""
+    out = []
+    seen, made = {}, {}
+    pos = 0
+    for ev in tr.iters:
+        while pos < ev['n0']:
+            key = _key(tr.calls[pos][0])
+            made[key] = made.get(key, 0) + 1
+            pos += 1
+        i = _key(ev['m'])
+        k = seen.get(i, 0)
+        seen[i] = k + 1
+        if k == 0:
+            continue            # the initial evaluation
+        why = []
+        if k - 1 >= G: why.append('generations %d >= limit %d' % (k - 1, G))     # k-1 iterations really completed after the initial one
+        if made.get(i, 0) >= EV: why.append('evaluations %d >= limit %d' % (made.get(i, 0), EV))
+        if ev['term']: why.append('its termination condition already holds')
+        if why:
+            out.append((why, i, k))
+    return out
+
+
 # ------------------------------------------------------------------ the oracle
 def judge(R):
     """-> list of (sig dict, detail) for one execution"""
@@ -87,6 +117,9 @@ def judge(R):
         name, msg, tb = R.error
         if name == 'Horizon':
             bad('runaway', 'no stop within the horizon: %s' % msg)
+            G, EV = member_limits(cfg, R.dim)
+            for why, i, k in past_stop(tr, G, EV)[:1]:
+                bad('member_ran_past_stop', 'member %r began iteration %d although %s' % (i, k, '; '.join(why)), reason=why[0].split(' ')[0])
         else:
             where = [l.strip() for l in tb.splitlines() if l.strip().startswith('File "')]
             out.append(({'clause': 'raised', 'error': name, 'limits': limits_kind(cfg), 'path': path, 'api': cfg.get('api', 'class')},
@@ -202,10 +235,7 @@ def judge(R):
                 bad('lattice_start_order', 'member i does not start in cell i: starts %r, cells in documented order %r' % (obs, cen))
     # ---- 5. members carry the ensemble's configuration
     import mystic.termination as mt
-    G0, E0 = lab.default_limits(cfg['nested'], dim, cfg.get('npop', 4))
-    lim = cfg.get('limits') or [None, None]
-    G = G0 if lim[0] is None else lim[0]
-    EV = E0 if lim[1] is None else lim[1]
+    G, EV = member_limits(cfg, dim)
     want_term = mt.state(R.term) if R.term is not None else None
     for i, m in enumerate(members):
         probs = []
@@ -252,19 +282,9 @@ def judge(R):
                 break
     seen = {}
     for ev in tr.iters:
-        i = _key(ev['m'])
-        k = seen.get(i, 0)
-        seen[i] = k + 1
-        if k == 0:
-            continue
-        made = sum(1 for c in calls[:ev['n0']] if _key(c[0]) == i)
-        why = []
-        if k - 1 >= G: why.append('generations %d >= limit %d' % (k - 1, G))     # k-1 iterations really completed after the initial one
-        if made >= EV: why.append('evaluations %d >= limit %d' % (made, EV))
-        if ev['term']: why.append('its termination condition already holds')
-        if why:
-            bad('member_ran_past_stop', 'member %r began iteration %d although %s' % (i, k, '; '.join(why)), reason=why[0].split(' ')[0])
-            break
+        seen[_key(ev['m'])] = seen.get(_key(ev['m']), 0) + 1
+    for why, i, k in past_stop(tr, G, EV)[:1]:
+        bad('member_ran_past_stop', 'member %r began iteration %d although %s' % (i, k, '; '.join(why)), reason=why[0].split(' ')[0])
     for i, m in enumerate(members):
         msg = m.Terminated(info=True)
         if not msg:
@@ -627,8 +647,8 @@ def layouts(thorough):
     return out
 
 
-LIMITS_Q = [[3, None], [None, 7], [2, 5], [0, None], [None, 0]]
-LIMITS_T = LIMITS_Q + [[1, 1], [5, 23], [0, 0]]
+LIMITS_Q = [[3, None], [None, 7], [0, None], [None, 0]]
+LIMITS_T = LIMITS_Q + [[2, 5], [0, 0]]
 
 
 def configs(ctx):
@@ -640,7 +660,7 @@ def configs(ctx):
     out = []
     lay = layouts(th)
     # A1 accounting / selection: every layout x nested x mode x map x evalmon x cost, limits on, plain box
-    maps = ['none', 'default', 'rev', 'copy'] + (['fwd', 'copyrev'] if th else [])
+    maps = ['none', 'default', 'rev', 'copy'] + (['copyrev'] if th else [])
     for L in lay:
         slow = L['ens'] == 'sparsity'
         for nst in nested:
@@ -648,16 +668,20 @@ def configs(ctx):
                 for mp in maps:
                     for em in (False, True):
                         for cost in ('sphere', 'steps'):
-                            lims = [[3, None], [None, 7]] + ([[2, 5]] if th else [])
+                            lims = [[3, None], [None, 7]] + ([[2, 5]] if th and cost == 'sphere' else [])
                             if slow and not th and (cost == 'steps' or mp in ('none',)):
                                 continue
                             if mp == 'copy' and mode != 'solve' and not th and (requested(L) > 3 or cost == 'steps'):
                                 continue    # dill copies of every member on every round: small ensembles only (quick)
+                            if cost == 'steps' and mp in ('none', 'copy') and not th:
+                                continue    # the tie-rich cost under the two plain maps only (quick)
+                            if slow and th and (mp == 'copyrev' or (L['npts'] > 3 and mode == 'stepsolve')):
+                                continue
                             for lim in lims:
                                 out.append(dict(L, nested=nst, box='unit', con=None, pen=None, limits=lim, term='never',
                                                 evalmon=em, map=mp, mode=mode, cost=cost, seed=seed))
     # A2 configuration carried and obeyed: box x constraint x penalty x limits x termination, fewer layouts
-    sub = [L for L in lay if (L.get('nbins') in ([2], [3], [1, 3], [2, 2], [3, 2], [2, 1, 2])) or
+    sub = [L for L in lay if (L.get('nbins') in ([[2], [1, 3], [2, 2]] + ([[3], [3, 2], [2, 1, 2]] if th else []))) or
            (L['ens'] == 'buckshot' and (L['dim'], L['npts']) in ((1, 2), (2, 3), (2, 5))) or
            (L['ens'] == 'sparsity' and (L['dim'], L['npts']) in ((2, 2), (1, 3)))]
     for L in sub:
@@ -671,8 +695,10 @@ def configs(ctx):
                                 for term in (None, 'vtr', 'cog1'):
                                     if lim is None and term is None and not th and (requested(L) > 3 or mode != 'solve'):
                                         continue    # run to full convergence: small ensembles only (quick)
-                                    if slow and not th and (mode == 'stepsolve' or box == 'shift'):
-                                        continue
+                                    if slow and not th and (mode == 'stepsolve' or box != 'unit' or nst != 'NM'):
+                                        continue    # fillpts runs diffev per point: one box / nested solver (quick)
+                                    if th and ((nst == 'DE' and box != 'unit') or (slow and (box == 'shift' or nst == 'DE'))):
+                                        continue    # DE members and the diffev-per-point generator: fewer boxes (thorough)
                                     mp = 'default' if (con is None) == (pen is None) else 'rev'
                                     out.append(dict(L, nested=nst, box=box, con=con, pen=pen, limits=lim, term=term,
                                                     evalmon=bool(pen), map=mp, mode=mode, cost='sphere', seed=seed + 1))
@@ -726,6 +752,8 @@ def wrapper_configs(ctx):
                             if L['ens'] == 'sparsity' and not th and (mode == 'stepsolve' or box == 'degen'):
                                 continue
                             if lim is None and requested(L) > 4 and not th:
+                                continue
+                            if nst == 'DE' and (box != 'unit' or mode == 'stepsolve'):
                                 continue
                             out.append(dict(L, api='wrapper', nested=nst, box=box, con=feat[0], pen=feat[1], limits=lim, term=None,
                                             evalmon=True, map='default', mode=mode, cost='sphere', seed=ctx.seed))
@@ -782,6 +810,27 @@ def weight(cfg):
     return w
 
 
+def simplicity(cfg):
+    plain = sum(1 for k in ('con', 'pen', 'term', 'evalmon') if cfg.get(k)) + (cfg.get('box') not in ('unit', None)) + (cfg.get('cost') != 'sphere')
+    mp = cfg.get('map')
+    return (requested(cfg), cfg['ens'] != 'lattice', ens_dim(cfg), cfg['nested'] != 'NM', cfg.get('mode') != 'solve', plain,
+            0 if mp in ('none', 'default') else 1, str(mp), str(cfg.get('limits')))
+
+
+def ens_dim(cfg):
+    return lab.ens_dim(cfg)
+
+
+def split_head(cfgs, k):
+    """-> (rest, head): head holds the k simplest configurations of every (limits kind, path) group"""
+    groups = {}
+    for c in sorted(cfgs, key=simplicity):
+        groups.setdefault((limits_kind(c), c.get('mode') != 'solve'), []).append(c)
+    head = [c for g in sorted(groups) for c in groups[g][:k]]
+    ids = set(id(c) for c in head)
+    return [c for c in cfgs if id(c) not in ids], head
+
+
 def balanced(cfgs, nshards):
     cfgs = sorted(cfgs, key=lambda c: -weight(c))
     bins = [[0.0, []] for _ in range(nshards)]
@@ -800,8 +849,12 @@ def run(ctx):
     F = fill_cases(ctx)
     parts = os.environ.get('VERIF_PARTS')
     items = []
-    items += [('R', c) for c in balanced(A, 400 if not th else 1200)]
-    items += [('W', c) for c in balanced(W, 64 if not th else 192)]
+    # the simplest configurations go first, in one shard, so that the case recorded for a signature is a small one
+    nA, nW = len(A), len(W)
+    A, headA = split_head(A, 10)
+    W, headW = split_head(W, 6)
+    items += [('R', headA)] + [('R', c) for c in balanced(A, 400 if not th else 1200)]
+    items += [('W', headW)] + [('W', c) for c in balanced(W, 64 if not th else 192)]
     items += [('S', it) for it in S]
     items += [('Ggrid', None)]
     gshapes = [(d, n) for d in (1, 2, 3) for n in range(1, 7) if d * n <= 6]
@@ -809,8 +862,9 @@ def run(ctx):
     items += [('Gdist', (d, n, 2 if not th else 3)) for d, n in ((1, 1), (1, 2), (2, 1), (2, 2))]
     items += [('Gfill', c) for c in chunks(F, 6)]
     items += [('Grb', (N, (1, 2, 3), 2 if not th else 3)) for N in range(0, 13)]
-    if parts:
+    if parts:      # development aid: run some parts only (never exhaustive)
         items = [it for it in items if it[0] in parts.split(',')]
+        ctx.cap('VERIF_PARTS=%s: only these parts were run' % parts)
     # heavy shards first
     order = {'S': 0, 'R': 1, 'W': 2, 'Gfill': 3}
     items.sort(key=lambda it: order.get(it[0], 9))
@@ -820,7 +874,7 @@ def run(ctx):
         'limits(maxiter,maxfun)': [None] + (LIMITS_T if th else LIMITS_Q), 'termination': ['ensemble default', 'VTR(1/16)', 'ChangeOverGeneration(1/64,1)', 'never'],
         'maps': ['none (SetMapper not called)', 'default (traced python_map)', 'fwd', 'rev', 'copy (dill)', 'copyrev', 'every permutation x {share,copy} for 2-3%s members' % ('-4' if th else '')],
         'modes': ['Solve', 'Solve(step=True)', 'Step loop'], 'costs': ['sphere', 'steps'],
-        'ensemble_runs': len(A), 'wrapper_runs': 2 * len(W), 'scripted_buckshot_configs': len(S), 'scripted_unit_alphabet': [0.0, 0.5, ONE_MINUS],
+        'ensemble_runs': nA, 'wrapper_runs': 2 * nW, 'scripted_buckshot_configs': len(S), 'scripted_unit_alphabet': [0.0, 0.5, ONE_MINUS],
         'gridpts': 'all bin-size tuples in {1..4}^d, d<=3, 3 value schemes', 'samplepts/random_samples': 'dim*npts<=6, %d boxes, draws in {0,0.5,1-2^-53}' % sum(len(v) for v in GEN_BOXES.values()),
         'random_samples(dist)': 'scripted user distribution over {inside, below, lb, ub, above, inside2}, deviation bound %d' % (2 if not th else 3),
         'fillpts_cases': len(F), 'randomly_bin': 'N in 0..12, ndim in 1..3, ones x exact, random() in 5-value alphabet (every sort order of <=5 keys)',
